@@ -9,10 +9,11 @@
   Analytic proof over the integers for all inputs (Proofs/Hypot.lean): three branches, each an inequality between
   squares (`(h−2)² ≤ S ≤ (h+2)²`, `19997²·S ≤ 20000²·h² ≤ 20003²·S`), the scaling amounts from `countl_zero` through
   `Nat.log2`; no enumeration.  The abacus back-end satisfies `SqrtNear` by the loop-invariant theorem, so for it every
-  clause is unconditional (`C14_abacus_*`).  For the std::sqrt back-end the theorems are stated with the hypothesis
-  `SqrtNear .std` (what C13 demands of it), which is not yet a theorem of the IEEE model — PARTIAL for that back-end.
+  clause is unconditional (`C14_abacus`).  The std::sqrt back-end satisfies `SqrtNear` by the rounding theory of the
+  IEEE model (`sqrtNear_std`, Real/SqrtStd.lean), so `C14_std` is unconditional as well.
 -/
 import FixedMath.Proofs.Hypot
+import FixedMath.Real.SqrtStd
 import Mathlib.Analysis.Real.Sqrt
 
 namespace FixedMath
@@ -198,6 +199,16 @@ theorem C14_abacus (a b : Int)
           |(h : ℝ) - Real.sqrt ((a : ℝ) ^ 2 + (b : ℝ) ^ 2)| ≤ 15 / 100000 * Real.sqrt ((a : ℝ) ^ 2 + (b : ℝ) ^ 2)) :=
   C14_acc .abacus sqrtNear_abacus a b ha hb
 
+theorem C14_std (a b : Int)
+    (ha : -140737488355328 < a ∧ a < 140737488355328) (hb : -140737488355328 < b ∧ b < 140737488355328) :
+    ∃ h : Int, (hypot .std a b ⇓ h) ∧ 0 ≤ h ∧ ¬ isNaN h ∧
+      ((-1073741824 < a ∧ a < 1073741824 ∧ -1073741824 < b ∧ b < 1073741824) →
+          |(h : ℝ) - Real.sqrt ((a : ℝ) ^ 2 + (b : ℝ) ^ 2)| ≤ 2) ∧
+      (¬ (-1073741824 < a ∧ a < 1073741824 ∧ -1073741824 < b ∧ b < 1073741824) →
+          |(h : ℝ) - Real.sqrt ((a : ℝ) ^ 2 + (b : ℝ) ^ 2)| ≤ 15 / 100000 * Real.sqrt ((a : ℝ) ^ 2 + (b : ℝ) ^ 2)) :=
+  C14_acc .std sqrtNear_std a b ha hb
+
 example : SqrtNear .abacus := sqrtNear_abacus
+example : SqrtNear .std := sqrtNear_std
 
 end FixedMath
